@@ -47,6 +47,10 @@ def plan(tier, seed):
     for i in range(6 if tier == "quick" else 40):
         shards.append({"kind": "random", "item": {"kind": "gen", "seed": seed * 100003 + i, "opts": {"services": False}},
                        "seed": seed * 977 + 100 + i, "n": n // 2})
+    # the same histories on the pydantic variant of the generated classes (constructing with two members of a
+    # group is rejected there by the generated validator, so such constructions are not generated)
+    for i in range(2 if tier == "quick" else 8):
+        shards.append({"kind": "random", "item": {"kind": "matrix"}, "opts": "pydantic_dataclasses", "seed": seed * 977 + 500 + i, "n": n // 2})
     shards.append({"kind": "w0"})
     return shards
 
@@ -294,7 +298,7 @@ def alphabet(b):
     return mi, A
 
 
-def random_history(b, mi, rng, g: Gen):
+def random_history(b, mi, rng, g: Gen, one_member_per_group: bool = False):
     members = [n for ms in mi.oneofs.values() for n in ms]
     plain = [f for f in mi.fields if f.label == "singular" and f.kind in ("int32", "string", "bool", "int64")]
     group_of = {n: gg for gg, ms in mi.oneofs.items() for n in ms}
@@ -355,10 +359,13 @@ def random_history(b, mi, rng, g: Gen):
                 ms.append((n, val(n)))
             ops.append({"op": "from_dict", "form": form, "members": ms})
         elif r < 0.80:
-            ms = []
+            ms, used = [], set()
             for _ in range(rng.randint(0, 3)):
                 n = rng.choice(members)
+                if one_member_per_group and group_of[n] in used:
+                    continue
                 if n not in [x for x, _ in ms]:
+                    used.add(group_of[n])
                     ms.append((n, val(n)))
             ops.append({"op": "ctor", "members": ms})
         else:
@@ -374,10 +381,11 @@ def run_shard(shard) -> Result:
     res = Result()
     item = shard.get("item", {"kind": "matrix"})
     try:
-        b = corpus.build_item(item)
+        b = corpus.build_item(item, shard.get("opts", ""))
     except BuildError as e:
         res.inconclusive.append(f"SUT could not be built: {e.stage}: {e.detail[-400:]}")
         return res
+    pyd = "pydantic" in shard.get("opts", "")
     try:
         monitors.install(CONTRACTS)
         if shard["kind"] == "exhaustive":
@@ -406,10 +414,12 @@ def run_shard(shard) -> Result:
             g = Gen(b, rng, max_depth=2)
             for _ in range(shard["n"]):
                 mi = rng.choice(cands)
-                ops = random_history(b, mi, rng, g)
+                ops = random_history(b, mi, rng, g, one_member_per_group=pyd)
                 res.evaluations += 1
+                if pyd:
+                    res.note("pydantic_histories")
                 try:
-                    run_history(b, mi, ops, res, {"item": item})
+                    run_history(b, mi, ops, res, {"item": item, "opts": shard.get("opts", "")})
                 except Exception as e:
                     res.inconclusive.append(f"oracle crashed: {type(e).__name__}: {e}\n{traceback.format_exc()[-1200:]}")
                     break
@@ -428,11 +438,11 @@ def replay(w):
 
         return run_w0(PROP, CONTRACTS).violations
     res = Result()
-    b = corpus.build_item(w["item"])
+    b = corpus.build_item(w["item"], w.get("opts", ""))
     try:
         monitors.install(CONTRACTS)
         mi = b.msgs[w["msg"]]
-        run_history(b, mi, [_op_from_json(o) for o in w["ops"]], res, {"item": w["item"]})
+        run_history(b, mi, [_op_from_json(o) for o in w["ops"]], res, {"item": w["item"], "opts": w.get("opts", "")})
         monitors.drain(res, PROP)
     finally:
         b.cleanup()
